@@ -52,7 +52,10 @@ def analyse(text):
             for h in e.highlights[:1]:
                 bad.add((h.lineno, h.column))
     nbad_errors = sum(1 for e in errlist if e.name == "BAD_LEXEME")
-    al = lexref.align(text, toks, bad)
+    al = lexref.align(text, toks, bad, want=[t.pos for t in toks])
+    if not al["ok"]:
+        # no alignment agrees with the reported positions: judge the first alignment that exists
+        al = lexref.align(text, toks, bad)
     if not al["ok"] and nbad_errors:
         al2 = lexref.align(text, toks, list(range(nbad_errors)), count_mode=True)
         if al2["ok"]:
